@@ -286,9 +286,13 @@ class HTTP11Connection(ConnectionInterface):
         # If the HTTP connection is idle but the socket is readable, then the
         # only valid state is that the socket is about to return b"", indicating
         # a server-initiated disconnect.
+        #
+        # The socket is looked at first: with threads, a request may start on
+        # this connection between the two tests, and a response that arrives
+        # for it must not be mistaken for a disconnect of an idle connection.
+        is_readable = self._network_stream.get_extra_info("is_readable")
         server_disconnected = (
-            self._state == HTTPConnectionState.IDLE
-            and self._network_stream.get_extra_info("is_readable")
+            self._state == HTTPConnectionState.IDLE and bool(is_readable)
         )
 
         return keepalive_expired or server_disconnected
